@@ -1,38 +1,79 @@
 """C16 — Frustum projection, depth mapping, planes and culling are mutually consistent.
 
-T-route: harness/sym/sym_c16.cpp instantiates ImathFrustum.h / ImathFrustumTest.h at the symbolic scalar (every method,
-perspective and orthographic copies separately) and regenerates Gen/C16Frustum.lean, Gen/C16Test.lean on every run;
-Props/C16.lean is re-elaborated against them.
-H-route: `planes (p, M)` (double (_nearPlane)) and the real-valued core of `DepthToZ` (long (...)) cannot be instantiated
-symbolically; their hand transcripts (harness/sym/c16_hand.h) are emitted by sym_c16m.cpp into Gen/C16PlanesM.lean and
-tied to the real code by bitwise translation validation at double plus the exact correspondences of harness/corr/c16_corr.cpp.
-Residue (measured, never presented as proof): c16_corr.cpp at float and double."""
+T-route: harness/sym/sym_c16.cpp instantiates ImathFrustum.h / ImathFrustumTest.h at the symbolic scalar (every method incl. operator=,
+constructors, ==/!=, the real body of DepthToZ with its `long (…)` operand recorded, ZToDepth at concrete integer triples; perspective and
+orthographic copies separately) and regenerates Gen/C16Frustum.lean, Gen/C16Test.lean on every run; Props/C16.lean, Props/C16Z.lean (integer
+depth mapping) and Props/C16Cull.lean (culling about the frustum, unit normals, mirrored cameras, witnesses) are re-elaborated against them.
+H-route: `planes (p, M)` (double (_nearPlane)): hand transcript harness/sym/c16_hand.h emitted by sym_c16m.cpp into Gen/C16PlanesM.lean, tied by
+bitwise TV at double; the machine-integer parts of ZToDepth / DepthToZ: lean/ImathVerif/Model/FrustumZ.lean, evaluated and compared with the
+real code by harness/corr/c16_corr.cpp (zmodel).  Residue (measured, never presented as proof): c16_corr.cpp at float and double."""
 import os, re
 import lib, troute
 
 PROPS = "ImathVerif.Props.C16"
+PROPS_Z = "ImathVerif.Props.C16Z"
+PROPS_CULL = "ImathVerif.Props.C16Cull"
+PROPS_MORE = [PROPS_CULL]
+REQUIRED_Z = [
+    "depthToZp_persp_real_body", "depthToZp_ortho_real_body", "depthToZ_persp_3_10", "depthToZ_ortho_3_10", "zdiffLong_eq",
+    "zvalWrapped_inrange", "zvalWrapped_wrap", "zNormalized_inrange", "zNormalized_wrap", "zToDepth_persp_inrange",
+    "zToDepth_ortho_inrange", "zToDepth_persp_wrap", "zToDepth_ortho_wrap", "ZToDepth_persp_5_0_10", "ZToDepth_persp_11_0_10",
+    "ZToDepth_persp_12_0_10", "ZToDepth_persp_m3_m10_10", "ZToDepth_persp_w32", "ZToDepth_ortho_5_0_10", "ZToDepth_ortho_11_0_10",
+    "ZToDepth_ortho_12_0_10", "ZToDepth_ortho_m3_m10_10", "ZToDepth_ortho_w32", "ZToDepth_persp_small_cases",
+    "ZToDepth_ortho_small_cases", "depthToZ_operand_persp", "depthToZ_operand_ortho", "depthToZ_zToDepth_persp",
+    "depthToZ_zToDepth_ortho", "depthToZ_zToDepth_persp_within_one", "depthToZ_zToDepth_ortho_within_one", "zToDepth_persp_ends",
+    "zToDepth_ortho_ends", "witness_zToDepth_24bit", "witness_zToDepth_32bit", "former_narrowing_defect",
+]
+REQUIRED_CULL = [
+    "mulM44_affinePre", "affinePre_mulM44", "isVisiblePoint_persp_world", "isVisiblePoint_ortho_world",
+    "isVisibleSphere_persp_touches", "isVisibleSphere_ortho_touches", "isVisibleBox_persp_touches", "isVisibleBox_ortho_touches",
+    "completelyContainsSphere_persp_inside", "completelyContainsSphere_ortho_inside", "completelyContainsBox_persp_inside",
+    "completelyContainsBox_ortho_inside", "planesM_persp_unit", "planesM_ortho_unit", "planesM_persp_mirrored",
+    "planesM_ortho_mirrored", "isVisiblePoint_persp_mirrored", "isVisiblePoint_ortho_mirrored", "witness_planesM_ortho",
+    "witness_planesM_persp", "witness_box_ortho", "witness_sphere_ortho", "witness_point_ortho", "witness_sphere_persp",
+    "witness_box_persp", "witness_point_persp", "regionPersp_iff_ndc", "regionOrtho_iff_ndc", "corner_mem_regionPersp",
+    "corner_mem_regionOrtho", "planesM_ortho_identity_far_lt_near", "planes_persp_eval_inverted",
+]
+REQUIRED_MORE = {PROPS_CULL: REQUIRED_CULL}
+# every theorem except pure helper lemmas (deleting any of them must be noticed)
 REQUIRED = [
-    "projectionMatrix_persp_corners", "projectionMatrix_ortho_corners", "projectPointToScreen_persp", "projectPointToScreen_ortho",
+    "ctor_persp", "ctor_ortho", "set_persp", "set_ortho", "setOrthographic_persp", "setOrthographic_ortho", "degenerate_persp",
+    "degenerate_ortho", "projectionMatrix_persp_corners", "projectionMatrix_ortho_corners",
+    "projectionMatrix_persp_corners_homog", "projectionMatrix_ortho_corners_homog", "projectPointToScreen_persp",
+    "projectPointToScreen_ortho", "localToScreen_screenToLocal", "screenToLocal_localToScreen", "screenToLocal_ortho_eq",
+    "localToScreen_ortho_eq", "screenToLocal_corners", "projectScreenToRay_persp_shape", "projectScreenToRay_ortho_shape",
     "projectScreenToRay_persp_projects", "projectScreenToRay_persp_complete", "projectScreenToRay_ortho_projects",
-    "projectScreenToRay_ortho_complete", "localToScreen_screenToLocal", "screenToLocal_localToScreen",
-    "normalizedZToDepth_persp_depthToZp", "depthToZp_persp_normalizedZToDepth", "projectionMatrix_persp_depth",
-    "projectionMatrix_persp_normalizedZ", "normalizedZToDepth_ortho_depthToZp", "depthToZp_ortho_normalizedZToDepth",
-    "projectionMatrix_ortho_depth", "projectionMatrix_ortho_normalizedZ", "worldRadius_screenRadius", "screenRadius_worldRadius",
-    "setFov_fovx_form", "setFov_fovy_form", "setFov_fovx_aspect", "setFov_fovy_aspect", "setFov_fovx_fovx", "setFov_fovy_fovy",
-    "window_persp", "window_ortho", "window_full", "modifyNearAndFar_persp", "modifyNearAndFar_ortho",
-    "planes_persp_eval", "planes_persp_region", "planes_persp_interior", "planes_persp_unit",
-    "planes_ortho_eval", "planes_ortho_region", "planes_ortho_interior", "planes_ortho_unit",
+    "projectScreenToRay_ortho_complete", "normalizedZToDepth_persp_depthToZp", "depthToZp_persp_normalizedZToDepth",
+    "normalizedZToDepth_persp_defined", "projectionMatrix_persp_depth", "projectionMatrix_persp_normalizedZ",
+    "normalizedZToDepth_ortho_depthToZp", "depthToZp_ortho_normalizedZToDepth", "projectionMatrix_ortho_depth",
+    "projectionMatrix_ortho_normalizedZ", "normalizedZToDepth_persp_ends", "normalizedZToDepth_ortho_ends",
+    "worldRadius_screenRadius", "screenRadius_worldRadius", "screenRadius_ortho_eq", "worldRadius_ortho_eq", "screenRadius_spec",
+    "aspect_persp", "aspect_ortho", "fovx_persp", "fovy_persp", "fovx_ortho", "fovy_ortho", "setFov_fovx_form",
+    "setFov_fovy_form", "setFov_ortho_eq", "ctorFov_eq", "setFov_fovx_aspect", "setFov_fovy_aspect", "setFov_fovx_fovx",
+    "setFov_fovy_fovy", "window_persp", "window_ortho", "window_full", "modifyNearAndFar_ortho", "modifyNearAndFar_persp",
+    "planes_persp_struct", "planes_ortho_struct", "planes_ortho_eval", "planes_ortho_region", "planes_ortho_interior",
+    "planes_ortho_unit", "planes_persp_eval", "planes_persp_region", "planes_persp_interior", "planes_persp_unit",
     "planesM_persp_struct", "planesM_ortho_struct", "planesM_persp_normals_le_one", "planesM_ortho_normals_le_one",
-    "planesM_persp_identity", "planesM_ortho_identity", "planesM_persp_affine", "planesM_ortho_affine",
-    "setFrustum_persp", "setFrustum_ortho", "isVisiblePoint_persp", "isVisiblePoint_ortho",
-    "isVisiblePoint_persp_affine", "isVisiblePoint_ortho_affine",
-    "isVisibleSphere_persp_false", "isVisibleSphere_ortho_false", "completelyContainsSphere_persp_true",
-    "completelyContainsSphere_ortho_true", "isVisibleBox_persp_false", "isVisibleBox_ortho_false",
-    "completelyContainsBox_persp_true", "completelyContainsBox_ortho_true",
+    "planesM_persp_identity", "planesM_ortho_identity", "setFrustum_persp", "setFrustum_ortho", "isVisiblePoint_persp",
+    "isVisiblePoint_ortho", "isVisibleSphere_persp_eq", "isVisibleSphere_ortho_eq", "completelyContainsSphere_persp_eq",
+    "completelyContainsSphere_ortho_eq", "isVisibleBox_persp_eq", "isVisibleBox_ortho_eq", "completelyContainsBox_persp_eq",
+    "completelyContainsBox_ortho_eq", "isVisibleSphere_persp_false", "isVisibleSphere_ortho_false",
+    "completelyContainsSphere_persp_true", "completelyContainsSphere_ortho_true", "isVisibleBox_persp_false",
+    "isVisibleBox_ortho_false", "completelyContainsBox_persp_true", "completelyContainsBox_ortho_true",
+    "isVisiblePoint_persp_identity", "isVisiblePoint_ortho_identity", "planesM_persp_affine", "planesM_ortho_affine",
+    "isVisiblePoint_persp_affine", "isVisiblePoint_ortho_affine", "assign_persp", "assign_ortho", "copyCtor_persp",
+    "copyCtor_ortho", "hitherYon_persp", "hitherYon_ortho", "defaultCtor", "eq_persp_persp", "eq_ortho_ortho", "eq_persp_ortho",
+    "eq_ortho_persp", "stores_persp", "stores_ortho", "frustumTest_defaultCtor", "V3mulM44_eq", "projectPointToScreen_persp_z0",
+    "projectScreenToRay_persp_forward", "projectScreenToRay_ortho_forward", "fovx_setFov", "fovy_setFov", "aspect_setFov_fovx",
+    "aspect_setFov_fovy", "witness_projectionMatrix_persp", "witness_projectionMatrix_ortho",
+    "witness_projectPointToScreen_depth", "witness_planes_persp_region_real",
 ]
 
 # theorem-name prefix -> group of the executable specification (c16_corr spec) used to look for a failing input
-GROUPS = [("witness_projectionMatrix", "projectionMatrix"), ("witness_projectPointToScreen", "projectPointToScreen|depth"),
+GROUPS = [("witness_box", "frustumtest"), ("witness_sphere", "frustumtest"), ("witness_point", "frustumtest"), ("witness_planesM", "planesM|frustumtest"),
+          ("assign", "ctor"), ("copyCtor", "ctor"), ("hitherYon", "ctor"), ("defaultCtor", "ctor"), ("eq_", "ctor"), ("stores", "frustumtest"),
+          ("frustumTest_defaultCtor", "frustumtest|ctor"), ("V3mulM44", "projectionMatrix"), ("region", "projectionMatrix|planes"),
+          ("corner_mem", "planes|projectionMatrix"), ("witness_projectionMatrix", "projectionMatrix"), ("witness_projectPointToScreen", "projectPointToScreen|depth"),
           ("witness_planes", "planes"), ("projectionMatrix", "projectionMatrix|depth"), ("projectPointToScreen", "projectPointToScreen"),
           ("projectScreenToRay", "projectScreenToRay"), ("localToScreen", "screenLocal"), ("screenToLocal", "screenLocal"),
           ("normalizedZToDepth", "depth"), ("depthToZp", "depth"), ("worldRadius", "radius"), ("screenRadius", "radius"),
@@ -48,27 +89,203 @@ def run_spec(chk, binary):
     return rc, m, fails, out
 
 
+ZLEAN = """import ImathVerif.Model.FrustumZ
+open ImathVerif.FrustumZ
+#eval show IO Unit from do
+  let s ← IO.FS.readFile "%s"
+  let mut out := ""
+  for line in s.splitOn "\\n" do
+    match line.splitOn " " with
+    | ["A", z, zmin, zmax] => out := out ++ protoArgs z.toInt! zmin.toInt! zmax.toInt! ++ "\\n"
+    | ["T", num, den, zmin] => out := out ++ protoTail num.toInt! den.toNat! zmin.toInt! ++ "\\n"
+    | _ => pure ()
+  IO.FS.writeFile "%s" out
+"""
+
+# (zmin, zmax): 8/16/24/31-bit z-buffers, signed ranges, and ranges whose width does not fit an `int`
+ZRANGES = [(0, 255), (0, 65535), (0, 16777215), (0, 2147483647), (-1000, 1000), (-2147483648, -1), (0, 10), (3, 10),
+           (0, 2147483648), (0, 4294967295), (-2147483648, 2147483648), (-2147483648, 2147483647), (7, 7 + 2 ** 40)]
+
+
+def run_lean_model(chk, lines, name):
+    d = lib.ensure_dir(os.path.join(lib.BUILD, "scratch"))
+    fin, fout = os.path.join(d, "c16z_%s_%d.in" % (name, os.getpid())), os.path.join(d, "c16z_%s_%d.out" % (name, os.getpid()))
+    open(fin, "w").write("\n".join(lines) + "\n")
+    if os.path.exists(fout):
+        os.remove(fout)
+    rc, out = lib.lean_run_file(ZLEAN % (fin, fout), timeout=600, name="c16z_" + name)
+    res = open(fout).read().split("\n")[:-1] if os.path.exists(fout) else None
+    for f in (fin, fout):
+        try:
+            os.remove(f)
+        except OSError:
+            pass
+    return rc, out, res
+
+
+def run_zmodel(chk, binary):
+    """Integer depth mapping: the Lean machine-integer model (Model/FrustumZ.lean) is EVALUATED; its integers drive the exact
+    comparison with the real ZToDepth, its tail is run on the operand of the real DepthToZ's cast."""
+    rng = chk.rng
+    triples = []
+    for zmin, zmax in ZRANGES:
+        w = zmax - zmin
+        zs = [zmin, zmin + 1, zmin + w // 2, zmax - 1, zmax, zmax + 1, zmax + 2, zmax + w // 2, zmax + w, zmax + w + 1, zmax + w + 2,
+              zmin - 1, zmin - w // 3]
+        zs += [rng.randint(zmin, zmax) for _ in range(3)] + [rng.randint(zmax + 2, zmax + w + 1) for _ in range(2)]
+        triples += [(z, zmin, zmax) for z in zs]
+    rc, out, res = run_lean_model(chk, ["A %d %d %d" % t for t in triples], "args")
+    name = ("H:zmodel: ZToDepth = normalizedZToDepth of the Lean model's machine integers (long zdiff, wrap above zmax + 1), bitwise; "
+            "DepthToZ = Lean tail long (x) + zmin on the real operand; float and double")
+    if rc != 0 or res is None or len(res) != len(triples):
+        chk.oblige(name, "correspondence", False, out[-600:])
+        chk.fail("H:zmodel", "c16_corr:zmodel:lean-run", "the Lean model of the integer prologue could not be evaluated", {"output": out[-1500:]}, False)
+        return
+    d = lib.ensure_dir(os.path.join(lib.BUILD, "scratch"))
+    argsf = os.path.join(d, "c16z_cases_%d.txt" % os.getpid())
+    open(argsf, "w").write("\n".join(res) + "\n")
+    rc, out = lib.sh([binary, "zmodel", str(chk.seed), argsf], timeout=900)
+    os.remove(argsf)
+    m = re.search(r"C16Z cases=(\d+) evals=(\d+) judged=(\d+) wide_judged=(\d+) wrap_judged=(\d+) tails=(\d+) failures=(\d+)", out)
+    fails = [l for l in out.split("\n") if l.startswith("C16Z-FAIL")]
+    keys = dict((a, int(b)) for a, b in re.findall(r"C16ZKEY (\S+) (\d+)", out))
+    # Lean tail on the real operands
+    tails = [l.split() for l in out.split("\n") if l.startswith("ZT ")]
+    tl = []
+    for t in tails:
+        num, den = float.fromhex(t[2]).as_integer_ratio()
+        tl.append("T %d %d %s" % (num, den, t[3]))
+    rc2, out2, res2 = run_lean_model(chk, tl, "tail") if tl else (0, "", [])
+    tail_bad = []
+    if rc2 != 0 or res2 is None or len(res2) != len(tails):
+        tail_bad = ["lean tail run failed: " + out2[-300:]]
+    else:
+        for t, r in zip(tails, res2):
+            if int(r) != int(t[4]):
+                tail_bad.append("%s: operand x=%s (=%r) zmin=%s: real DepthToZ=%s, Lean long(x)+zmin=%s" % (t[1], t[2], float.fromhex(t[2]), t[3], t[4], r))
+    hfail = [l for l in fails if l.split()[1].startswith("H:")]
+    sfails = [l for l in fails if not l.split()[1].startswith("H:")]
+    okrun = rc in (0, 1) and m is not None
+    chk.oblige(name, "correspondence", okrun and not hfail and not tail_bad, (hfail + tail_bad)[:5] or (None if okrun else out[-400:]))
+    chk.oblige("spec:ZToDepth: value = depth of the normalised position in [zmin, zmax] (long double, `long` width; z > zmax + 1 wraps by zmax - zmin), "
+               "ranges up to 2^40 wide", "correspondence", okrun and not sfails, sfails[:5] or None)
+    if m:
+        chk.count(int(m.group(2)) + int(m.group(6)), int(m.group(3)) + int(m.group(6)))
+        chk.extra["zmodel"] = {"integer_triples": len(triples), "ZToDepth_exact_comparisons": int(m.group(2)), "judged_against_expectation": int(m.group(3)),
+                               "of_which_range_ge_2^31": int(m.group(4)), "of_which_wrapped": int(m.group(5)), "DepthToZ_tail_comparisons": int(m.group(6)),
+                               "negative_operands": sum(1 for t in tails if float.fromhex(t[2]) < 0), "failure_keys": keys}
+        for a, b in re.findall(r"C16MAX (\S+) (\S+)", out):
+            chk.residues.setdefault("C16Z", {})[a] = float(b)
+    seen = set()
+    for l in fails:
+        key = l.split()[1]
+        if key in seen:
+            continue
+        seen.add(key)
+        chk.fail(("correspondence:" if key.startswith("H:") else "spec:") + key, "c16_corr:" + key,
+                 ("real ZToDepth disagrees with the Lean machine-integer model: " if key.startswith("H:") else
+                  "real ZToDepth is not the depth of the normalised z-buffer value: ") + key,
+                 {"line": l[:900], "replay_cmd": "c16_corr zmodel %d <file written by the Lean model>" % chk.seed}, True)
+    for b in tail_bad[:1]:
+        chk.fail("correspondence:H:zmodel:DepthToZ-tail", "c16_corr:H:zmodel:DepthToZ-tail", "real DepthToZ disagrees with the Lean tail long (x) + zmin",
+                 {"case": b, "more": tail_bad[1:5]}, True)
+    if not okrun:
+        chk.fail("H:zmodel", "c16_corr:zmodel:run", "zmodel harness did not run", {"output": out[-1500:]}, False)
+
+
+def run_ft_lattice(chk, binary):
+    """Lean TEXT of the FrustumTest entries (Gen/C16Test.lean calling Gen/C16PlanesM.lean and Gen/Leaf.lean: the entries the Rat-side
+    translator validation skips) evaluated at Rat == the REAL FrustumTest<double> on an exact dyadic lattice."""
+    from fractions import Fraction
+    name = ("lean-real:FrustumTest: generated Lean definitions evaluated at Rat (sqrt := id, unit-cube orthographic frustum, signed-permutation "
+            "cameras with dyadic translation) = real FrustumTest<double>, all five queries, exact")
+    rc, out = lib.sh([binary, "ftlattice", str(chk.seed)], timeout=300)
+    q = lambda h: "(%s : Rat)" % (lambda f: ("(%d)" % f.numerator) if f.denominator == 1 else "((%d) / %d)" % (f.numerator, f.denominator))(Fraction(float.fromhex(h)))
+    cams, cur = [], None
+    for l in out.split("\n"):
+        w = l.split()
+        if l.startswith("FTL-CAM") and len(w) == 17:
+            cur = {"M": "(⟨" + ", ".join(q(x) for x in w[1:]) + "⟩ : M44 Rat)", "objs": [], "raw": l}
+            cams.append(cur)
+        elif l.startswith("FTL-OBJ") and cur is not None and len(w) == 16:
+            cur["objs"].append(w[1:])
+    nobj = sum(len(c["objs"]) for c in cams)
+    if rc != 0 or not nobj:
+        chk.oblige(name, "correspondence", False, out[-400:])
+        chk.fail("lean-real:FrustumTest", "c16_corr:ftlattice:run", "lattice harness did not run", {"output": out[-1000:]}, False)
+        return
+    lines = ["import ImathVerif.Gen.C16Test", "open ImathVerif ImathVerif.Gen",
+             "def b2s (b : Bool) : String := if b then \"1\" else \"0\"",
+             "def ftAll (M : M44 Rat) (o : V3 Rat × Sphere3 Rat × Box3 Rat) : String :=",
+             "  b2s (FrustumTest.isVisiblePoint_ortho (0 : Rat) 1000000 id 1 2 0 1 1 0 M o.1) ++ b2s (FrustumTest.isVisibleSphere_ortho (0 : Rat) 1000000 id 1 2 0 1 1 0 M o.2.1) ++",
+             "  b2s (FrustumTest.isVisibleBox_ortho (0 : Rat) 1000000 id 1 2 0 1 1 0 M o.2.2) ++ b2s (FrustumTest.completelyContainsSphere_ortho (0 : Rat) 1000000 id 1 2 0 1 1 0 M o.2.1) ++",
+             "  b2s (FrustumTest.completelyContainsBox_ortho (0 : Rat) 1000000 id 1 2 0 1 1 0 M o.2.2)"]
+    for i, c in enumerate(cams):
+        objs = ["((⟨%s, %s, %s⟩ : V3 Rat), (⟨⟨%s, %s, %s⟩, %s⟩ : Sphere3 Rat), (⟨⟨%s, %s, %s⟩, ⟨%s, %s, %s⟩⟩ : Box3 Rat))"
+                % tuple(q(x) for x in (o[0], o[1], o[2], o[0], o[1], o[2], o[3], o[4], o[5], o[6], o[7], o[8], o[9])) for o in c["objs"]]
+        lines.append("#eval IO.println (\"FTLEAN %d \" ++ String.intercalate \",\" ([%s].map (ftAll %s)))" % (i, ", ".join(objs), c["M"]))
+    rcl, lout = lib.lean_run_file("\n".join(lines) + "\n", timeout=900, name="c16ft")
+    got = dict((int(m.group(1)), m.group(2).split(",")) for m in re.finditer(r"FTLEAN (\d+) (\S+)", lout))
+    bad, dist = [], {}
+    for i, c in enumerate(cams):
+        g = got.get(i)
+        for j, o in enumerate(c["objs"]):
+            real = "".join(o[10:15])
+            dist[real] = dist.get(real, 0) + 1
+            if g is None or j >= len(g) or g[j] != real:
+                bad.append({"camera_matrix_hex": c["raw"][8:], "object_hex(point/centre, radius, box min, box max)": " ".join(o[:10]),
+                            "real_code(isVisible point, sphere, box; completelyContains sphere, box)": real,
+                            "generated_Lean_at_Rat": (g[j] if g is not None and j < len(g) else "not evaluated: " + lout[-300:])})
+    chk.oblige(name, "correspondence", not bad, bad[:3] or None)
+    chk.count(5 * nobj, 5 * nobj)
+    chk.extra["ft_lattice"] = {"cameras": len(cams), "objects": nobj, "answer_patterns(point,sphere,box,containsSphere,containsBox)": dist}
+    if bad:
+        chk.fail("lean-real:FrustumTest", "c16_corr:ftlattice:lean-vs-real", "the generated Lean definitions of FrustumTest, evaluated exactly, disagree with "
+                 "the real FrustumTest<double> on an exact input (emitted text / opaque call wiring / hand transcript of planes (p, M))", bad[0], True)
+
+
 def run(chk):
     chk.trusted = ["Lean 4.33 kernel; axioms propext/Classical.choice/Quot.sound at most; Mathlib (ordered fields, Real.sqrt, Real.arctan)",
-                   "translator harness/sym, validated on every run: TV bitwise at float and double, emitted Lean text at Rat",
-                   "hand transcripts harness/sym/c16_hand.h of planes(p,M) and DepthToZ's real-valued core: tied by bitwise TV at double "
-                   "against the real planes(p,M), exact equality of DepthToZ/ZToDepth with the transcript formulas at float and double",
-                   "Spec/FrustumSpec.lean (regions, plane equation, LenSpec); long double evaluation as the oracle of the measured residue"]
-    chk.assumptions = ["Vec3::length is an opaque call: theorems that depend on normalisation assume LenSpec (Gen.V3.length tmin sqrt) "
+                   "translator harness/sym, validated on every run: TV bitwise at float and double, emitted Lean text at Rat (entries without opaque calls); "
+                   "for the FrustumTest entries (opaque planes (p, M)) the emitted Lean text is evaluated at Rat against the REAL FrustumTest<double> on an exact lattice",
+                   "hand transcript harness/sym/c16_hand.h of planes (p, M) (the body with the double (…) / (T) casts removed): bitwise TV at double against the real "
+                   "planes (p, M); at float to rounding (normals and distance).  The transcript of DepthToZ's Zp is no longer trusted: it is PROVED equal to the "
+                   "operand of the real body's long (…) cast (Gen.Frustum.DepthToZ_*_3_10, extracted with sym.h's recording `operator long`, TV at double with a "
+                   "recording double wrapper harness/sym/sym_c16.cpp C16CapD, itself compared with Frustum<double>::DepthToZ on every TV input)",
+                   "hand model lean/ImathVerif/Model/FrustumZ.lean of the machine-integer prologue / epilogue of ZToDepth / DepthToZ (LP64, wrapping long, modular "
+                   "long arithmetic): EVALUATED on every run, its integers drive the bitwise comparison with the real ZToDepth; T-route theorems at concrete integer triples",
+                   "Spec/FrustumSpec.lean (regions, plane equation, LenSpec); regions cross-validated against the projection matrix (regionPersp/Ortho_iff_ndc); "
+                   "long double evaluation as the oracle of the measured residue"]
+    chk.assumptions = ["Vec3::length is an opaque call: theorems that depend on normalisation assume LenSpec (Gen.V3.length tmin tmax sqrt) "
                        "(>= 0, squares to x^2+y^2+z^2); shown for the extracted 129-path length over R with Real.sqrt (lenSpec_real)",
                        "atan2/tan enter set(fov)/fovx/fovy as parameters with the hypotheses atan2 (n tan h) n = h at h = +-fov/2 "
-                       "(example over R: arctan (y/x), x > 0, |h| < pi/2)",
-                       "planes(p,M) = planes(p) mapped by M is proved for affine M with positive determinant (rigid, uniform and "
-                       "non-uniform positive scale); mirrored M (normals then point inwards: measured) and projective M are NOT covered (_partial)",
-                       "the long truncation of ZToDepth/DepthToZ and all rounding are NOT proved: measured (residue). The random residue sweep has "
-                       "no domain exclusion any more (far/near up to 1e6 with wide windows included, float and double): the former finding "
-                       "planesM:float:far-plane-normal-overflow was repaired by /repo 16a5ca8 (Vec length() takes the scaled path on overflow); "
-                       "its input is kept as the full-strength obligation probe:far-plane, which must pass"]
-    chk.rule = ("theorems: all frusta/points/matrices over any ordered field under the stated non-degeneracy hypotheses. "
-                "TV: structured inputs incl. zeros, signed zeros, extremes. c16_corr: frusta with near over 6 decades, far/near in "
-                "{1.001 … 1e6}, asymmetric/off-axis windows, both kinds, float and double; random rigid+uniform-scale cameras; objects on, "
-                "across (+-1/2 size) and beside (+-1.5, +-3 size) each of the six planes; ambiguous (within the rounding margin of a "
-                "boundary) cases are counted, not judged. spec: 240 dyadic lattice frusta, exact ties for >= against >")
+                       "(example over R: arctan (y/x), x > 0, |h| < pi/2); no theorem identifies atan2 with Complex.arg",
+                       "NON-DEGENERATE is read as: projection half (corners, projectPointToScreen, rays, depth, radii, window, fov): near != far, l != r, b != t "
+                       "(near, far != 0 for perspective); planes / culling half: l < r, b < t, 0 < near (perspective; and near < far where stated), near < far "
+                       "(orthographic planes (p, M)).  Outside: recorded by theorems planes_persp_eval_inverted (inverted window: side normals inward) and "
+                       "planesM_ortho_identity_far_lt_near (the two overloads disagree on the side planes)",
+                       "CAMERA MATRICES are affine (last column 0,0,0,1) with det3 > 0: rigid, uniform and non-uniform positive scale, shear.  EXPLICIT EXCLUSION "
+                       "(property text: 'camera matrices (rigid and scaled)'): mirrored M (det3 < 0) — proved: all six normals of planes (p, M) then point "
+                       "INTO the frustum and FrustumTest::isVisible (point) is false for every point (planesM_*_mirrored, isVisiblePoint_*_mirrored); the real code "
+                       "is measured to behave exactly so (obligation mirrored).  Projective M: not covered.  planes (p, M) is not identified with "
+                       "Plane3::operator* (M) (C15's extraction); it is characterised directly (same half-spaces as the mapped planes, unit normals)",
+                       "ZToDepth / DepthToZ: proved mutually inverse on [zmin, zmax] over an ordered field for every range whose width fits a long, with a "
+                       "cast that is exact on integers; all rounding is measured (round trip within +-1 plus an allowance).  The defect found by this check "
+                       "(ZToDepth narrowed zmax - zmin to int: wrong depths for ranges >= 2^31 wide, e.g. a 32-bit z-buffer; key "
+                       "c16_corr:ZToDepth:zrange-ge-2^31) is FIXED in /repo (6489c36); its inputs stay in the zmodel sweep and as theorems "
+                       "(ZToDepth_*_w32, witness_zToDepth_32bit; former_narrowing_defect records what the old code computed)",
+                       "the former finding planesM:float:far-plane-normal-overflow is FIXED in /repo (16a5ca8, Vec length() takes the scaled path on overflow); "
+                       "its input is kept as the full-strength obligation probe:far-plane, which must pass; the residue sweep has no domain exclusion",
+                       "Exc spellings (setExc, ZToDepthExc, DepthToZExc, ...): C07 (pair agreement); Frustum<T>() default near plane is T (0.1): the extracted literal "
+                       "is the double nearest 1/10 (at float the real value is 0.1f)"]
+    chk.rule = ("theorems: all frusta/points/matrices over any ordered field under the hypotheses listed in assumptions; culling theorems conclude about the "
+                "FRUSTUM region (composition with planesM_*_affine) and are accompanied by evaluated witnesses with both answers (Rat; exact ties on "
+                "axis and slanted planes). TV: structured inputs incl. zeros, signed zeros, extremes. c16_corr: frusta with near over 6 decades, far/near in "
+                "{1.001 … 1e6}, asymmetric/off-axis windows, both kinds, float and double; random rigid+uniform-scale cameras (culling: 2/3 signed "
+                "permutations, 1/3 general rotations); objects on, across (+-1/2 size) and beside (+-1.5, +-3 size) each of the six planes; ambiguous "
+                "(within the rounding margin of a boundary) cases are counted, not judged. zmodel: 13 z-ranges (8…40 bits wide, signed, non-int widths) x "
+                "{ends, mid, zmax+1, zmax+2, wrap region, below zmin, random} x 16 frusta x 2 types. spec: 240 dyadic lattice frusta (+24 inverted / "
+                "negative-near ones for the projection half), exact ties for >= against >")
     bins = troute.build_extractors(chk, [dict(name="sym_leaf", source="sym/sym_leaf.cpp"),
                                          dict(name="sym_c16m", source="sym/sym_c16m.cpp"),
                                          dict(name="sym_c16", source="sym/sym_c16.cpp"),
@@ -112,8 +329,28 @@ def run(chk):
                         "replay_cmd": "%s spec %d" % (os.path.relpath(bins["c16_corr"], lib.VERIF), chk.seed)}
         return None
 
+    zcache = {}
+
+    def search_z(name):
+        """broken theorem about the integer depth mapping: the zmodel correspondence / the depth relations of the specification"""
+        if not bins.get("c16_corr"):
+            return None
+        if "z" not in zcache:
+            sub = lib.Check("C16", tier=chk.tier, seed=chk.seed)
+            run_zmodel(sub, bins["c16_corr"])
+            zcache["z"] = list(sub.failures)
+        for f in zcache["z"]:
+            return {"key": "theorem:" + name, "failing_input_on_real_code": f.get("replay"), "what": f.get("what")}
+        return search("depthToZp_" + name)
+
     if ok_gen:
         chk.check_theorems(PROPS, required=REQUIRED, search=search)
+        chk.check_theorems(PROPS_Z, required=REQUIRED_Z, search=search_z)
+        for mod in PROPS_MORE:
+            chk.check_theorems(mod, required=REQUIRED_MORE.get(mod, []), search=search)
+    if bins.get("c16_corr") and ok_gen:
+        run_zmodel(chk, bins["c16_corr"])
+        run_ft_lattice(chk, bins["c16_corr"])
 
     if bins.get("c16_corr"):
         # executable specification on the real code (second tie, exact-arithmetic relations incl. the >= ties)
@@ -142,10 +379,15 @@ def run(chk):
         hits = dict((a, int(b)) for a, b in re.findall(r"C16HIT (\S+) (\d+)", out))
         maxima = dict((a, float(b)) for a, b in re.findall(r"C16MAX (\S+) (\S+)", out))
         hfail = [l for l in fl if l.split()[1].startswith("H:")]
-        rfail = [l for l in fl if not l.split()[1].startswith("H:")]
+        mfail = [l for l in fl if l.split()[1].startswith("mirroredM:")]
+        rfail = [l for l in fl if not l.split()[1].startswith("H:") and not l.split()[1].startswith("mirroredM:")]
         okrun = rc in (0, 1) and m is not None
-        chk.oblige("H-route: DepthToZ/ZToDepth = transcript formulas exactly; planes(p,M) = transcript (double bitwise, float to rounding)",
+        chk.oblige("H-route: DepthToZ/ZToDepth = transcript formulas exactly; planes(p,M) = transcript (double bitwise, float normals and distance to rounding)",
                    "correspondence", okrun and not hfail, hfail[:5] or None)
+        mj = sum(v for k, v in hits.items() if k.startswith("mirrored_M:judged"))
+        chk.oblige("mirrored: camera matrices with det < 0 (explicit exclusion): the real planes (p, M) / FrustumTest behave as PROVED "
+                   "(planesM_*_mirrored: all six normals inward; isVisiblePoint_*_mirrored: the frustum centre is reported invisible), float and double",
+                   "correspondence", okrun and not mfail and mj > 0, mfail[:5] or ({"judged": mj} if mj else "no mirrored case was judged"))
         chk.oblige("residue: corners->cube, depth round trip within +-1 (+ rounding allowance), planes(p,M) = mapped planes(p), "
                    "culling decisions vs extended-precision oracle", "residue", okrun and not rfail, rfail[:5] or None)
         if m:
@@ -162,8 +404,9 @@ def run(chk):
             if key in seen:
                 continue
             seen.add(key)
-            chk.fail(("correspondence:" if key.startswith("H:") else "residue:") + key, "c16_corr:" + key,
-                     "real code disagrees with the " + ("hand model" if key.startswith("H:") else "measured bound / oracle") + ": " + key,
+            chk.fail(("correspondence:" if key.startswith("H:") or key.startswith("mirroredM:") else "residue:") + key, "c16_corr:" + key,
+                     "real code disagrees with the " + ("hand model" if key.startswith("H:") else "proved behaviour for mirrored camera matrices"
+                                                        if key.startswith("mirroredM:") else "measured bound / oracle") + ": " + key,
                      {"line": l[:900], "replay_cmd": "c16_corr %d %d" % (chk.seed, n)}, True)
         if not okrun:
             chk.fail("c16_corr", "c16_corr:run", "correspondence harness did not run", {"output": out[-1500:]}, False)
@@ -199,3 +442,6 @@ def run(chk):
                              "FrustumTest::isVisible is false for an interior point although the far plane is correct", replay, True)
     if chk.thorough and ok_gen:
         chk.leanchecker(PROPS)
+        chk.leanchecker(PROPS_Z)
+        for mod in PROPS_MORE:
+            chk.leanchecker(mod)
